@@ -74,6 +74,7 @@ class IsoDepInitiator(object):
         self.delta_fwt = 49152 / 13.56E6
         self.n_retry_ack = min(int(1/self.fwt), 5)
         self.n_retry_nak = self.n_retry_ack
+        self.max_wtx_requests = 64  # for a single block
 
     def exchange(self, command, timeout=None):
         if timeout is None:
@@ -90,17 +91,32 @@ class IsoDepInitiator(object):
             pfb = pack('B', (0x02, 0x12)[more] | self.pni)
             data = pfb + command[offset:offset+self.miu]
 
-            for i in itertools.count(start=1):  # pragma: no branch
+            wait, n_wtx, n_ack = timeout, 0, 0
+            attempts = itertools.count(start=1)
+            while True:
                 try:
-                    data = self.clf.exchange(data, timeout)
+                    data = self.clf.exchange(data, wait)
+                    wait = timeout
                     if len(data) == 0:
                         raise nfc.clf.TransmissionError
+                    if data[0] & 0b11111110 == 0b11110010:  # WTX
+                        log.debug("ISO-DEP waiting time extension")
+                        n_wtx += 1
+                        if len(data) < 2 or n_wtx > self.max_wtx_requests:
+                            raise nfc.clf.ProtocolError
+                        wait = (data[1] & 0x3F) * self.fwt
+                        attempts = itertools.count(start=1)
+                        continue
                     if data[0] == 0xA2 | (~self.pni & 1):
+                        n_ack += 1
+                        if n_ack > self.n_retry_nak + 1:
+                            raise nfc.clf.ProtocolError
                         log.debug("ISO-DEP retransmit after ack")
                         data = pfb + command[offset:offset+self.miu]
                         continue
                     break
                 except nfc.clf.TransmissionError:
+                    i = next(attempts)
                     if i <= self.n_retry_nak:
                         log.warning("ISO-DEP transmission error (#%d)" % i)
                         data = bytearray([0xB2 | self.pni])
@@ -108,6 +124,7 @@ class IsoDepInitiator(object):
                         log.error("ISO-DEP unrecoverable transmission error")
                         raise Type4TagCommandError(nfc.tag.RECEIVE_ERROR)
                 except nfc.clf.TimeoutError:
+                    i = next(attempts)
                     if i <= self.n_retry_nak:
                         log.warning("ISO-DEP timeout error (#%d)" % i)
                         data = bytearray([0xB2 | self.pni])
@@ -117,10 +134,6 @@ class IsoDepInitiator(object):
                 except nfc.clf.ProtocolError:
                     log.error("ISO-DEP unrecoverable protocol error")
                     raise Type4TagCommandError(nfc.tag.PROTOCOL_ERROR)
-
-            while data[0] & 0b11111110 == 0b11110010:  # WTX
-                log.debug("ISO-DEP waiting time extension")
-                data = self.clf.exchange(data, (data[1] & 0x3F) * self.fwt)
 
             if data[0] & 0x01 != self.pni:
                 log.warning("ISO-DEP protocol error: block number")
@@ -143,13 +156,25 @@ class IsoDepInitiator(object):
         while bool(data[0] & 0b00010000):
             data = pack('B', 0xA2 | self.pni)  # ACK
 
-            for i in itertools.count(start=1):  # pragma: no branch
+            wait, n_wtx = timeout, 0
+            attempts = itertools.count(start=1)
+            while True:
                 try:
-                    data = self.clf.exchange(data, timeout)
+                    data = self.clf.exchange(data, wait)
+                    wait = timeout
                     if len(data) == 0:
                         raise nfc.clf.TransmissionError
+                    if data[0] & 0b11111110 == 0b11110010:  # WTX
+                        log.debug("ISO-DEP waiting time extension")
+                        n_wtx += 1
+                        if len(data) < 2 or n_wtx > self.max_wtx_requests:
+                            raise nfc.clf.ProtocolError
+                        wait = (data[1] & 0x3F) * self.fwt
+                        attempts = itertools.count(start=1)
+                        continue
                     break
                 except nfc.clf.TransmissionError:
+                    i = next(attempts)
                     if i <= self.n_retry_ack:
                         log.warning("ISO-DEP transmission error  (#%d)" % i)
                         data = bytearray([0xA2 | self.pni])
@@ -157,6 +182,7 @@ class IsoDepInitiator(object):
                         log.error("ISO-DEP unrecoverable transmission error")
                         raise Type4TagCommandError(nfc.tag.RECEIVE_ERROR)
                 except nfc.clf.TimeoutError:
+                    i = next(attempts)
                     if i <= self.n_retry_ack:
                         log.warning("ISO-DEP timeout error (#%d)" % i)
                         data = bytearray([0xA2 | self.pni])
